@@ -163,7 +163,8 @@ CHECKS = {
                 "differing above bit 32 and ramp-filled shapes up to 16^3. "
                 "Each buffer is validated and decoded by "
                 "mc/oracle/cseg_spec.py (Python ints, from the format text) "
-                "and by the package decoder; both must return the original.",
+                "and by the package decoder; both must return the original."
+                " A byte-coincidence family builds two-block chunks in which the bytes of the second block's table occur at an unaligned position inside the first block's table (1548 / 3220 chunks).",
         "note": "Trusts DESIGN.md App. A.2; chunks of at most 8 voxels for "
                 "the all-arrays part (small-scope: axis/bit-order bugs show "
                 "there).",
@@ -236,7 +237,8 @@ CHECKS = {
                 "the stored bytes, and nothing else may appear. A second "
                 "family changes the MIME type of a name between stores. "
                 "Confinement: 14 spellings x 4 operations x 3 accessors "
-                "with a sentinel sibling directory.",
+                "with a sentinel sibling directory."
+                " Outside names include ones below directories that do not exist yet; nothing outside the dataset directory may be created.",
         "note": "Operations are sequential; contents are 3 byte strings; "
                 "one writer configuration per history.",
     },
@@ -258,7 +260,8 @@ CHECKS = {
                 "encoder acceptance, chunk compatibility with the pyramid "
                 "computation. The type/encoding/data_type/channels product "
                 "(720 combinations) goes through set_info_params end to "
-                "end.",
+                "end."
+                " A consumer family hands generated descriptions (incl. one-voxel axes) to the real compute_dyadic_scales on tiny datasets: accepted inside the envelope, every level readable.",
         "note": "Lattice, not all positive reals; 'compatible' = the "
                 "envelope stated in the module. Three recorded known "
                 "findings (three distinct delays; target <= 4).",
@@ -307,7 +310,8 @@ CHECKS = {
                 "data). All 11^6 coordinate tuples around the grid are "
                 "compared with the grid predicate and every rejected "
                 "near-valid tuple is offered to write_chunk (must raise, "
-                "tree unchanged).",
+                "tree unchanged)."
+                " A reopen family rewrites a chunk through a handle opened on the same directory with the other compression setting and reads it through both handles and a fresh one.",
         "note": "Volumes of 5x4x3 voxels; JPEG bound depends on the "
                 "installed libjpeg (stated in ASSUMPTIONS).",
     },
